@@ -630,6 +630,7 @@ def run_case(case):
     err = tuple(case['err']) if case['err'] is not None else None
     exp, eerr = ref(case['ops'], vals, err)
     sl = slack(case['ops'])
+    first_ok = True
     for r in runs:
         k = r['k']
         what = 'full' if k is None else ('again' if k == 'again' else f'take {k}')
@@ -644,7 +645,10 @@ def run_case(case):
             want = exp[:k]
             wend = 'more' if k <= len(exp) else ('done' if eerr is None else show_err(eerr))
         wvals = '[' + ','.join(show(v) for v in want) + ']'
-        if what == 'again' and (r['vals'] not in (None, wvals) or r['end'] != wend):
+        if what == 'full':
+            first_ok = r['vals'] in (None, wvals) and r['end'] == wend
+        if what == 'again' and first_ok and (r['vals'] not in (None, wvals) or r['end'] != wend):
+            # the first consumption of this very case was right and the second one is not
             mon.append(dict(prop='C03', rule='reiterate',
                             detail=f'second consumption of the same Stream: got {r["vals"]} {r["end"]} expected {wvals} {wend}'))
             continue
